@@ -344,6 +344,79 @@ def _intr_cold_path(ex, f, a):
     return Agg(None, None, [])
 
 
+_WIDTH = {'u8': 8, 'i8': 8, 'u16': 16, 'i16': 16, 'u32': 32, 'i32': 32, 'u64': 64, 'i64': 64, 'usize': 64, 'isize': 64,
+          'u128': 128, 'i128': 128}
+
+
+def _int_ty(f):
+    m = re.search(r'::<([iu](?:8|16|32|64|128|size))>$', f['name'])
+    if not m:
+        raise EngineError('intrinsic without integer type argument: ' + f['name'])
+    t = m.group(1)
+    return _WIDTH[t], t.startswith('i')
+
+
+def _arith(name):
+    def fn(ex, f, a):
+        w, signed = _int_ty(f)
+        x, y = a[0], a[1]
+        m = (1 << w) - 1
+        if signed:
+            raise EngineError('signed ' + name)
+        if isinstance(x, int) and isinstance(y, int):
+            if name == 'saturating_sub':
+                return max(0, x - y)
+            if name == 'saturating_add':
+                return min(m, x + y)
+            if name in ('wrapping_add', 'unchecked_add'):
+                return (x + y) & m
+            if name in ('wrapping_sub', 'unchecked_sub'):
+                return (x - y) & m
+            if name in ('wrapping_mul', 'unchecked_mul'):
+                return (x * y) & m
+        bx, by = as_bv(x, w), as_bv(y, w)
+        if name == 'saturating_sub':
+            return simp(z3.If(z3.ULT(bx, by), bvv(0, w), bx - by))
+        if name == 'saturating_add':
+            r = bx + by
+            return simp(z3.If(z3.ULT(r, bx), bvv(m, w), r))
+        if name in ('wrapping_add', 'unchecked_add'):
+            return simp(bx + by)
+        if name in ('wrapping_sub', 'unchecked_sub'):
+            return simp(bx - by)
+        if name in ('wrapping_mul', 'unchecked_mul'):
+            return simp(bx * by)
+        raise EngineError('intrinsic ' + name)
+    fn.__name__ = 'intr_' + name
+    return fn
+
+
+def _intr_identity(ex, f, a):
+    return a[0]
+
+
+def _intr_unit(ex, f, a):
+    return Agg(None, None, [])
+
+
+def _intr_ctpop(ex, f, a):
+    w, _ = _int_ty(f)
+    x = a[0]
+    if isinstance(x, int):
+        return bin(x).count('1')
+    bx = as_bv(x, w)
+    t = bvv(0, 32)
+    for i in range(w):
+        t = t + z3.ZeroExt(31, z3.Extract(i, i, bx))
+    return simp(t)
+
+
 _INTRINSICS = {
     'cold_path': _intr_cold_path,
+    'likely': _intr_identity, 'unlikely': _intr_identity, 'black_box': _intr_identity,
+    'assert_inhabited': _intr_unit, 'assert_zero_valid': _intr_unit, 'assert_mem_uninitialized_valid': _intr_unit,
+    'ctpop': _intr_ctpop,
 }
+for _n in ('saturating_sub', 'saturating_add', 'wrapping_add', 'wrapping_sub', 'wrapping_mul', 'unchecked_add', 'unchecked_sub',
+           'unchecked_mul'):
+    _INTRINSICS[_n] = _arith(_n)
